@@ -625,13 +625,17 @@ func finish(env *runEnv, results []jobResult, verif, outdir, hooks, covinfo stri
 				cov["anchor_coverage"] = parseCovInfo(string(b))
 			}
 		}
+		assumptions := p.Assumptions
+		if assumptions == nil {
+			assumptions = []string{}
+		}
 		ev := map[string]any{
 			"property_id": p.ID,
 			"tier":        env.tier,
 			"seed":        env.seed,
 			"level":       p.Level,
 			"coverage":    cov,
-			"assumptions": p.Assumptions,
+			"assumptions": assumptions,
 			"wall_s":      wall,
 			"violations":  nviol,
 		}
